@@ -428,8 +428,10 @@ func (rtcmHandler *Handler) GetMessage(bitStream []byte) (*Message, error) {
 
 	// We have a complete message.
 
-	// Check the CRC.
-	errorCRC := CheckCRC(messageType, messageLength, bitStream)
+	// Check the CRC.  The frame is the part of the bit stream given by the
+	// message length.  Any bytes that follow it are not part of the frame
+	// and must not take part in the check.
+	errorCRC := CheckCRC(messageType, messageLength, bitStream[:expectedFrameLength])
 	if errorCRC != nil {
 		message := NewNonRTCM(bitStream)
 
